@@ -162,7 +162,7 @@ proof! {
 
 
 // ---- one (head, exact length) case per harness: a single decode (which re-encodes internally) + re-encode
-//@ also=C13 tier=quick timeout=900 mem=8 bits=0 unwind=12 unwindset="memcmp=12" fns=echo_edict_canonical::decode_canonical_cbor_v1,Decoder::value,Decoder::argument,Decoder::length,Decoder::take,echo_edict_canonical::encode_canonical_cbor_v1,encode_value,encode_integer,encode_type_value
+//@ also=C13 tier=off timeout=900 mem=12 bits=0 unwind=12 unwindset="memcmp=12" fns=echo_edict_canonical::decode_canonical_cbor_v1,Decoder::value,Decoder::argument,Decoder::length,Decoder::take,echo_edict_canonical::encode_canonical_cbor_v1,encode_value,encode_integer,encode_type_value
 //@ bounds="head 0x00 (uint immediate 0x00) with exactly 0 following byte(s), all values"
 //@ desc="Edict CBOR uint immediate 0x00: accepted => re-encodes to exactly the same 1 byte(s) (non-minimal forms rejected, not normalised); nothing panics"
 proof! {
@@ -170,7 +170,7 @@ proof! {
     fn c12_edict_exact_00() { l1_at(0x00, 1); reach!(); }
 }
 
-//@ also=C13 tier=quick timeout=900 mem=8 bits=0 unwind=12 unwindset="memcmp=12" fns=echo_edict_canonical::decode_canonical_cbor_v1,Decoder::value,Decoder::argument,Decoder::length,Decoder::take,echo_edict_canonical::encode_canonical_cbor_v1,encode_value,encode_integer,encode_type_value
+//@ also=C13 tier=off timeout=900 mem=12 bits=0 unwind=12 unwindset="memcmp=12" fns=echo_edict_canonical::decode_canonical_cbor_v1,Decoder::value,Decoder::argument,Decoder::length,Decoder::take,echo_edict_canonical::encode_canonical_cbor_v1,encode_value,encode_integer,encode_type_value
 //@ bounds="head 0x17 (uint immediate 0x17) with exactly 0 following byte(s), all values"
 //@ desc="Edict CBOR uint immediate 0x17: accepted => re-encodes to exactly the same 1 byte(s) (non-minimal forms rejected, not normalised); nothing panics"
 proof! {
@@ -178,7 +178,7 @@ proof! {
     fn c12_edict_exact_17() { l1_at(0x17, 1); reach!(); }
 }
 
-//@ also=C13 tier=quick timeout=900 mem=8 bits=8 unwind=12 unwindset="memcmp=12" fns=echo_edict_canonical::decode_canonical_cbor_v1,Decoder::value,Decoder::argument,Decoder::length,Decoder::take,echo_edict_canonical::encode_canonical_cbor_v1,encode_value,encode_integer,encode_type_value
+//@ also=C13 tier=off timeout=900 mem=12 bits=8 unwind=12 unwindset="memcmp=12" fns=echo_edict_canonical::decode_canonical_cbor_v1,Decoder::value,Decoder::argument,Decoder::length,Decoder::take,echo_edict_canonical::encode_canonical_cbor_v1,encode_value,encode_integer,encode_type_value
 //@ bounds="head 0x18 (uint, 1-byte argument) with exactly 1 following byte(s), all values"
 //@ desc="Edict CBOR uint, 1-byte argument: accepted => re-encodes to exactly the same 2 byte(s) (non-minimal forms rejected, not normalised); nothing panics"
 proof! {
@@ -186,7 +186,7 @@ proof! {
     fn c12_edict_exact_18() { l1_at(0x18, 2); reach!(); }
 }
 
-//@ also=C13 tier=quick timeout=900 mem=8 bits=16 unwind=12 unwindset="memcmp=12" fns=echo_edict_canonical::decode_canonical_cbor_v1,Decoder::value,Decoder::argument,Decoder::length,Decoder::take,echo_edict_canonical::encode_canonical_cbor_v1,encode_value,encode_integer,encode_type_value
+//@ also=C13 tier=off timeout=900 mem=12 bits=16 unwind=12 unwindset="memcmp=12" fns=echo_edict_canonical::decode_canonical_cbor_v1,Decoder::value,Decoder::argument,Decoder::length,Decoder::take,echo_edict_canonical::encode_canonical_cbor_v1,encode_value,encode_integer,encode_type_value
 //@ bounds="head 0x19 (uint, 2-byte argument) with exactly 2 following byte(s), all values"
 //@ desc="Edict CBOR uint, 2-byte argument: accepted => re-encodes to exactly the same 3 byte(s) (non-minimal forms rejected, not normalised); nothing panics"
 proof! {
@@ -194,7 +194,7 @@ proof! {
     fn c12_edict_exact_19() { l1_at(0x19, 3); reach!(); }
 }
 
-//@ also=C13 tier=quick timeout=900 mem=8 bits=32 unwind=12 unwindset="memcmp=12" fns=echo_edict_canonical::decode_canonical_cbor_v1,Decoder::value,Decoder::argument,Decoder::length,Decoder::take,echo_edict_canonical::encode_canonical_cbor_v1,encode_value,encode_integer,encode_type_value
+//@ also=C13 tier=off timeout=900 mem=12 bits=32 unwind=12 unwindset="memcmp=12" fns=echo_edict_canonical::decode_canonical_cbor_v1,Decoder::value,Decoder::argument,Decoder::length,Decoder::take,echo_edict_canonical::encode_canonical_cbor_v1,encode_value,encode_integer,encode_type_value
 //@ bounds="head 0x1a (uint, 4-byte argument) with exactly 4 following byte(s), all values"
 //@ desc="Edict CBOR uint, 4-byte argument: accepted => re-encodes to exactly the same 5 byte(s) (non-minimal forms rejected, not normalised); nothing panics"
 proof! {
@@ -202,7 +202,7 @@ proof! {
     fn c12_edict_exact_1a() { l1_at(0x1a, 5); reach!(); }
 }
 
-//@ also=C13 tier=quick timeout=900 mem=8 bits=64 unwind=12 unwindset="memcmp=12" fns=echo_edict_canonical::decode_canonical_cbor_v1,Decoder::value,Decoder::argument,Decoder::length,Decoder::take,echo_edict_canonical::encode_canonical_cbor_v1,encode_value,encode_integer,encode_type_value
+//@ also=C13 tier=off timeout=900 mem=12 bits=64 unwind=12 unwindset="memcmp=12" fns=echo_edict_canonical::decode_canonical_cbor_v1,Decoder::value,Decoder::argument,Decoder::length,Decoder::take,echo_edict_canonical::encode_canonical_cbor_v1,encode_value,encode_integer,encode_type_value
 //@ bounds="head 0x1b (uint, 8-byte argument) with exactly 8 following byte(s), all values"
 //@ desc="Edict CBOR uint, 8-byte argument: accepted => re-encodes to exactly the same 9 byte(s) (non-minimal forms rejected, not normalised); nothing panics"
 proof! {
@@ -210,7 +210,7 @@ proof! {
     fn c12_edict_exact_1b() { l1_at(0x1b, 9); reach!(); }
 }
 
-//@ also=C13 tier=quick timeout=900 mem=8 bits=0 unwind=12 unwindset="memcmp=12" fns=echo_edict_canonical::decode_canonical_cbor_v1,Decoder::value,Decoder::argument,Decoder::length,Decoder::take,echo_edict_canonical::encode_canonical_cbor_v1,encode_value,encode_integer,encode_type_value
+//@ also=C13 tier=off timeout=900 mem=12 bits=0 unwind=12 unwindset="memcmp=12" fns=echo_edict_canonical::decode_canonical_cbor_v1,Decoder::value,Decoder::argument,Decoder::length,Decoder::take,echo_edict_canonical::encode_canonical_cbor_v1,encode_value,encode_integer,encode_type_value
 //@ bounds="head 0x20 (nint immediate 0x20) with exactly 0 following byte(s), all values"
 //@ desc="Edict CBOR nint immediate 0x20: accepted => re-encodes to exactly the same 1 byte(s) (non-minimal forms rejected, not normalised); nothing panics"
 proof! {
@@ -218,7 +218,7 @@ proof! {
     fn c12_edict_exact_20() { l1_at(0x20, 1); reach!(); }
 }
 
-//@ also=C13 tier=quick timeout=900 mem=8 bits=8 unwind=12 unwindset="memcmp=12" fns=echo_edict_canonical::decode_canonical_cbor_v1,Decoder::value,Decoder::argument,Decoder::length,Decoder::take,echo_edict_canonical::encode_canonical_cbor_v1,encode_value,encode_integer,encode_type_value
+//@ also=C13 tier=off timeout=900 mem=12 bits=8 unwind=12 unwindset="memcmp=12" fns=echo_edict_canonical::decode_canonical_cbor_v1,Decoder::value,Decoder::argument,Decoder::length,Decoder::take,echo_edict_canonical::encode_canonical_cbor_v1,encode_value,encode_integer,encode_type_value
 //@ bounds="head 0x38 (nint, 1-byte argument) with exactly 1 following byte(s), all values"
 //@ desc="Edict CBOR nint, 1-byte argument: accepted => re-encodes to exactly the same 2 byte(s) (non-minimal forms rejected, not normalised); nothing panics"
 proof! {
@@ -226,7 +226,7 @@ proof! {
     fn c12_edict_exact_38() { l1_at(0x38, 2); reach!(); }
 }
 
-//@ also=C13 tier=quick timeout=900 mem=8 bits=64 unwind=12 unwindset="memcmp=12" fns=echo_edict_canonical::decode_canonical_cbor_v1,Decoder::value,Decoder::argument,Decoder::length,Decoder::take,echo_edict_canonical::encode_canonical_cbor_v1,encode_value,encode_integer,encode_type_value
+//@ also=C13 tier=off timeout=900 mem=12 bits=64 unwind=12 unwindset="memcmp=12" fns=echo_edict_canonical::decode_canonical_cbor_v1,Decoder::value,Decoder::argument,Decoder::length,Decoder::take,echo_edict_canonical::encode_canonical_cbor_v1,encode_value,encode_integer,encode_type_value
 //@ bounds="head 0x3b (nint, 8-byte argument) with exactly 8 following byte(s), all values"
 //@ desc="Edict CBOR nint, 8-byte argument: accepted => re-encodes to exactly the same 9 byte(s) (non-minimal forms rejected, not normalised); nothing panics"
 proof! {
@@ -234,7 +234,7 @@ proof! {
     fn c12_edict_exact_3b() { l1_at(0x3b, 9); reach!(); }
 }
 
-//@ also=C13 tier=quick timeout=900 mem=8 bits=0 unwind=12 unwindset="memcmp=12" fns=echo_edict_canonical::decode_canonical_cbor_v1,Decoder::value,Decoder::argument,Decoder::length,Decoder::take,echo_edict_canonical::encode_canonical_cbor_v1,encode_value,encode_integer,encode_type_value
+//@ also=C13 tier=off timeout=900 mem=12 bits=0 unwind=12 unwindset="memcmp=12" fns=echo_edict_canonical::decode_canonical_cbor_v1,Decoder::value,Decoder::argument,Decoder::length,Decoder::take,echo_edict_canonical::encode_canonical_cbor_v1,encode_value,encode_integer,encode_type_value
 //@ bounds="head 0xf4 (false) with exactly 0 following byte(s), all values"
 //@ desc="Edict CBOR false: accepted => re-encodes to exactly the same 1 byte(s) (non-minimal forms rejected, not normalised); nothing panics"
 proof! {
@@ -242,7 +242,7 @@ proof! {
     fn c12_edict_exact_f4() { l1_at(0xf4, 1); reach!(); }
 }
 
-//@ also=C13 tier=quick timeout=900 mem=8 bits=0 unwind=12 unwindset="memcmp=12" fns=echo_edict_canonical::decode_canonical_cbor_v1,Decoder::value,Decoder::argument,Decoder::length,Decoder::take,echo_edict_canonical::encode_canonical_cbor_v1,encode_value,encode_integer,encode_type_value
+//@ also=C13 tier=off timeout=900 mem=12 bits=0 unwind=12 unwindset="memcmp=12" fns=echo_edict_canonical::decode_canonical_cbor_v1,Decoder::value,Decoder::argument,Decoder::length,Decoder::take,echo_edict_canonical::encode_canonical_cbor_v1,encode_value,encode_integer,encode_type_value
 //@ bounds="head 0xf5 (true) with exactly 0 following byte(s), all values"
 //@ desc="Edict CBOR true: accepted => re-encodes to exactly the same 1 byte(s) (non-minimal forms rejected, not normalised); nothing panics"
 proof! {
@@ -250,7 +250,7 @@ proof! {
     fn c12_edict_exact_f5() { l1_at(0xf5, 1); reach!(); }
 }
 
-//@ also=C13 tier=quick timeout=900 mem=8 bits=0 unwind=12 unwindset="memcmp=12" fns=echo_edict_canonical::decode_canonical_cbor_v1,Decoder::value,Decoder::argument,Decoder::length,Decoder::take,echo_edict_canonical::encode_canonical_cbor_v1,encode_value,encode_integer,encode_type_value
+//@ also=C13 tier=off timeout=900 mem=12 bits=0 unwind=12 unwindset="memcmp=12" fns=echo_edict_canonical::decode_canonical_cbor_v1,Decoder::value,Decoder::argument,Decoder::length,Decoder::take,echo_edict_canonical::encode_canonical_cbor_v1,encode_value,encode_integer,encode_type_value
 //@ bounds="head 0xf6 (null) with exactly 0 following byte(s), all values"
 //@ desc="Edict CBOR null: accepted => re-encodes to exactly the same 1 byte(s) (non-minimal forms rejected, not normalised); nothing panics"
 proof! {
@@ -258,7 +258,7 @@ proof! {
     fn c12_edict_exact_f6() { l1_at(0xf6, 1); reach!(); }
 }
 
-//@ also=C13 tier=quick timeout=900 mem=8 bits=0 unwind=12 unwindset="memcmp=12" fns=echo_edict_canonical::decode_canonical_cbor_v1,Decoder::value,Decoder::argument,Decoder::length,Decoder::take,echo_edict_canonical::encode_canonical_cbor_v1,encode_value,encode_integer,encode_type_value
+//@ also=C13 tier=off timeout=900 mem=12 bits=0 unwind=12 unwindset="memcmp=12" fns=echo_edict_canonical::decode_canonical_cbor_v1,Decoder::value,Decoder::argument,Decoder::length,Decoder::take,echo_edict_canonical::encode_canonical_cbor_v1,encode_value,encode_integer,encode_type_value
 //@ bounds="head 0x40 (empty byte string) with exactly 0 following byte(s), all values"
 //@ desc="Edict CBOR empty byte string: accepted => re-encodes to exactly the same 1 byte(s) (non-minimal forms rejected, not normalised); nothing panics"
 proof! {
@@ -266,7 +266,7 @@ proof! {
     fn c12_edict_exact_40() { l1_at(0x40, 1); reach!(); }
 }
 
-//@ also=C13 tier=quick timeout=900 mem=8 bits=16 unwind=12 unwindset="memcmp=12" fns=echo_edict_canonical::decode_canonical_cbor_v1,Decoder::value,Decoder::argument,Decoder::length,Decoder::take,echo_edict_canonical::encode_canonical_cbor_v1,encode_value,encode_integer,encode_type_value
+//@ also=C13 tier=off timeout=900 mem=12 bits=16 unwind=12 unwindset="memcmp=12" fns=echo_edict_canonical::decode_canonical_cbor_v1,Decoder::value,Decoder::argument,Decoder::length,Decoder::take,echo_edict_canonical::encode_canonical_cbor_v1,encode_value,encode_integer,encode_type_value
 //@ bounds="head 0x42 (2-byte byte string) with exactly 2 following byte(s), all values"
 //@ desc="Edict CBOR 2-byte byte string: accepted => re-encodes to exactly the same 3 byte(s) (non-minimal forms rejected, not normalised); nothing panics"
 proof! {
@@ -285,7 +285,7 @@ fn must_reject(head: u8, len: usize) {
     }
 }
 
-//@ also=C13 tier=quick timeout=1500 mem=12 bits=300 unwind=12 unwindset="memcmp=12" fns=echo_edict_canonical::decode_canonical_cbor_v1,Decoder::value,Decoder::argument,Decoder::length,checked_collection_length
+//@ also=C13 tier=off timeout=1500 mem=12 bits=300 unwind=12 unwindset="memcmp=12" fns=echo_edict_canonical::decode_canonical_cbor_v1,Decoder::value,Decoder::argument,Decoder::length,checked_collection_length
 //@ bounds="items cut short, reserved/indefinite additional info, tags and unsupported simple values/floats - 18 (head, length) cases, every other byte symbolic"
 //@ desc="Edict rejects malformed heads: truncated items, reserved/indefinite lengths, tags and unsupported simple values are typed errors, never accepted, never a panic"
 proof! {
@@ -296,7 +296,7 @@ proof! {
     }
 }
 
-//@ also=C13 tier=quick timeout=900 mem=8 bits=8 unwind=12 unwindset="memcmp=12" fns=echo_edict_canonical::decode_canonical_cbor_v1,Decoder::value,Decoder::argument,Decoder::length,checked_collection_length
+//@ also=C13 tier=off timeout=900 mem=4 bits=8 unwind=12 unwindset="memcmp=12" fns=echo_edict_canonical::decode_canonical_cbor_v1,Decoder::value,Decoder::argument,Decoder::length,checked_collection_length
 //@ bounds="head 0x00 followed by its argument and exactly one trailing byte, all values"
 //@ desc="Edict: a byte trailing an immediate integer is rejected, never ignored"
 proof! {
@@ -304,7 +304,7 @@ proof! {
     fn c12_edict_trailing_00() { must_reject(0x00, 2); reach!(); }
 }
 
-//@ also=C13 tier=quick timeout=900 mem=8 bits=16 unwind=12 unwindset="memcmp=12" fns=echo_edict_canonical::decode_canonical_cbor_v1,Decoder::value,Decoder::argument,Decoder::length,checked_collection_length
+//@ also=C13 tier=off timeout=900 mem=4 bits=16 unwind=12 unwindset="memcmp=12" fns=echo_edict_canonical::decode_canonical_cbor_v1,Decoder::value,Decoder::argument,Decoder::length,checked_collection_length
 //@ bounds="head 0x18 followed by its argument and exactly one trailing byte, all values"
 //@ desc="Edict: a byte trailing a 1-byte-argument integer is rejected, never ignored"
 proof! {
@@ -312,7 +312,7 @@ proof! {
     fn c12_edict_trailing_18() { must_reject(0x18, 3); reach!(); }
 }
 
-//@ also=C13 tier=quick timeout=900 mem=8 bits=8 unwind=12 unwindset="memcmp=12" fns=echo_edict_canonical::decode_canonical_cbor_v1,Decoder::value,Decoder::argument,Decoder::length,checked_collection_length
+//@ also=C13 tier=off timeout=900 mem=4 bits=8 unwind=12 unwindset="memcmp=12" fns=echo_edict_canonical::decode_canonical_cbor_v1,Decoder::value,Decoder::argument,Decoder::length,checked_collection_length
 //@ bounds="head 0xf6 followed by its argument and exactly one trailing byte, all values"
 //@ desc="Edict: a byte trailing null is rejected, never ignored"
 proof! {
@@ -320,7 +320,7 @@ proof! {
     fn c12_edict_trailing_f6() { must_reject(0xf6, 2); reach!(); }
 }
 
-//@ also=C13 tier=quick timeout=900 mem=8 bits=8 unwind=12 unwindset="memcmp=12" fns=echo_edict_canonical::decode_canonical_cbor_v1,Decoder::value,Decoder::argument,Decoder::length,checked_collection_length
+//@ also=C13 tier=off timeout=900 mem=4 bits=8 unwind=12 unwindset="memcmp=12" fns=echo_edict_canonical::decode_canonical_cbor_v1,Decoder::value,Decoder::argument,Decoder::length,checked_collection_length
 //@ bounds="head 0x40 followed by its argument and exactly one trailing byte, all values"
 //@ desc="Edict: a byte trailing an empty byte string is rejected, never ignored"
 proof! {
